@@ -21,3 +21,19 @@ Theorem C09_example :
   end.
 Proof. vm_compute. auto. Qed.
 Print Assumptions C09_example.
+
+(* ---- declarative form and what is proved of it ------------------------------------------------------------ *)
+From TrV Require Import Optimal Proofs.RefSpec.
+Theorem C09_reference_map_correct : forall d s p egr,
+  wf_data_b d = true -> wf_params_b p = true -> q_minw p < MAX_INT ->
+  NoDup (map fst (reach_map_rev_ref d s p egr)) /\
+  forall n t, In (n, t) (reach_map_rev_ref d s p egr) <->
+              (latest_board d s p egr n t /\ q_time p - t <= q_maxtt p).
+Proof. exact reach_map_rev_ref_correct. Qed.
+Print Assumptions C09_reference_map_correct.
+
+(* tie to the source (reverseCalculationAllNodes as it is now) *)
+From TrV Require Import Proofs.GuardsTie.
+Theorem C09_reverse_allnodes_step_is_code : forall d p k st c, revall_step_code d p k st c = rev_step d p k true st c.
+Proof. exact revall_step_tie. Qed.
+Print Assumptions C09_reverse_allnodes_step_is_code.
